@@ -60,6 +60,12 @@ def main():
     _t0 = _t.time()
     print("runs done at %.0fs" % (_t0 - ck.t0), file=sys.stderr)
 
+    for info in infos:
+        if info.status == "exception":
+            d = desc(info)
+            ck.violation("an engine callback raised %s: the process would stop, the execution never ends and its event is never acknowledged: %s"
+                         % (info.exception["error"], json.dumps({k: d[k] for k in ("profile", "schedule", "definition", "inputs")})[:1200]), {"case": d})
+            break
     r = ck.eval_cases("replay", "PyStr Cases TraceSpec Protocol ProtocolCheck", "proto_case", pcases, ["proto_model"], per_file=25, timeout=900, prelude=PRE)
     if r is not None:
         for i in r["proto_model"][:3]:
